@@ -181,3 +181,8 @@ func (u *UnionAll) String(ctx *sql.Ctx, opts ...int) (string, error) {
 func FormatFromDate(from time.Time) string {
 	return from.UTC().Add(time.Minute * -30).Format("2006-01-02")
 }
+
+// FormatToDate formats the upper bound of a `date` range: the UTC day of the window end.
+func FormatToDate(to time.Time) string {
+	return to.UTC().Format("2006-01-02")
+}
